@@ -48,6 +48,7 @@ def judge(call, alias=None, same_type_only=True):
         if v is None or pname is None:
             continue
         vn = v["name"]
-        ok = vn == pname or pname in alias.get(vn, ()) or vn.lstrip("_") == pname.lstrip("_")
+        norm_ = lambda x: x.lstrip("_").rstrip("s")      # header/definition spellings: bucketnumber(s)
+        ok = vn == pname or pname in alias.get(vn, ()) or norm_(vn) == norm_(pname)
         out.append(dict(pos=i, param=pname, var=vn, ok=ok, line=a.get("line")))
     return out
